@@ -19,7 +19,7 @@ RULE = ("histories over all supported dtypes (int16/32/64, float16/32/64, long d
         "operation dtype == frequencies.dtype == errors2.dtype (world monitor), the dtype follows the rule for that operation, the "
         "values follow a float64 shadow (no truncation), set_dtype is accepted iff the reference rule admits it and a refusal changes "
         "nothing; non-trivial = history with >= 2 distinct content dtypes and >= 1 weighted fill or mixed-dtype arithmetic; "
-        "distinct by hash of the operation log Plus `narrow_count_case`: int16 / int32 bins and missed counters close to the top of the type filled further (fill_n, fill, numpy integer weights, 1D and 2D) and contents / squared errors handed to the constructor that the content type cannot hold.")
+        "distinct by hash of the operation log Plus `narrow_count_case`: int16 / int32 bins and missed counters close to the top of the type filled further (fill_n, fill, numpy integer weights, 1D and 2D) and contents / squared errors handed to the constructor that the content type cannot hold. `special_facade_case`: the construction rules through the seven facades of transformed histograms. `stated_missed_case`: non-integral underflow / overflow / inner_missed / missed handed to constructors, setters and documents of integer histograms (reported as given, or refused).")
 ASSUMPTIONS = [
     "silent integer wrap-around inside numpy arithmetic is kept out of the histories (small contents for int16); where the library itself sums (merge, marginals, running sums, weights) compact contents near the type's maximum are generated",
     "values are compared with a float64 shadow within the precision of the narrowest dtype involved",
